@@ -223,6 +223,13 @@ func (sw *SlidingWindow) Add(data any) {
 			close(sw.initChan)
 		}
 		sw.initialized = true
+	} else if timeChar == types.EventTime && sw.currentSlot != nil && eventTime.Before(*sw.currentSlot.Start) &&
+		(sw.watermark == nil || !sw.watermark.IsEventTimeLate(eventTime)) {
+		// An accepted (not late) row before the current interval: the current interval was derived
+		// from the first row to arrive, which need not be the earliest. The row is not behind the
+		// watermark, so no interval from its aligned one onwards has fired yet: move back to it, or
+		// the row would be reported in no interval at all.
+		sw.currentSlot = sw.createSlotFromStart(alignWindowStart(eventTime, sw.slide))
 	}
 	row := types.Row{
 		Data:      data,
